@@ -108,6 +108,18 @@ Definition fobs_eqb (a b : fobs) : bool :=
   | _, _ => false
   end.
 
+Definition quota_eqb (a b : quota_res) : bool :=
+  match a, b with
+  | QErr, QErr => true
+  | QRes q1 d1, QRes q2 d2 => Z.eqb q1 q2 && Bool.eqb d1 d2
+  | _, _ => false
+  end.
+
+Definition config_eqb (a b : config) : bool :=
+  Z.eqb (c_check a) (c_check b) && Z.eqb (c_soft_int a) (c_soft_int b) && Z.eqb (c_hard_int a) (c_hard_int b) &&
+  Z.eqb (c_limit_mib a) (c_limit_mib b) && Z.eqb (c_spike_mib a) (c_spike_mib b) &&
+  Z.eqb (c_limit_pct a) (c_limit_pct b) && Z.eqb (c_spike_pct a) (c_spike_pct b).
+
 (* ---- cases ----------------------------------------------------------------------------------- *)
 Inductive vcase :=
 (* Validate() class; NewMemoryLimiter outcome: 0 = error, 1 = panic, 2 = limiter with usage checker (limit, spike) *)
@@ -125,7 +137,13 @@ Inductive vcase :=
 | CSys (c : config) (total : option Z) (ops : list sop) (obs : list sobs)
 (* the same with checks that take time: a check is held inside CheckMemLimits (FBegin) while
    Start/Shutdown/MustRefuse happen, and released later (FEnd, or by the last Shutdown's wait) *)
-| CFine (c : config) (total : option Z) (ops : list fop) (obs : list fobs).
+| CFine (c : config) (total : option Z) (ops : list fop) (obs : list fobs)
+(* cgroups readers and iruntime.TotalMemory: inputs as observed/constructed by the harness *)
+| CQuotaV1 (subsys_exists : bool) (read : option Z) (obs : quota_res)
+| CQuotaV2 (f : v2_file) (obs : quota_res)
+| CTotal (e : mem_env) (obs : option Z)
+(* NewDefaultConfig() as the Go struct's seven fields *)
+| CDefault (obs : config).
 
 Definition check_case (c : vcase) : bool :=
   match c with
@@ -155,6 +173,10 @@ Definition check_case (c : vcase) : bool :=
       | Some l => list_eqb fobs_eqb (snd (frun l (fsys0 0) ops)) obs
       | None => false
       end
+  | CQuotaV1 ex rd obs => quota_eqb (memory_quota_v1 ex rd) obs
+  | CQuotaV2 f obs => quota_eqb (memory_quota_v2 f) obs
+  | CTotal e obs => option_eqb Z.eqb (total_memory e) obs
+  | CDefault obs => config_eqb default_config obs
   end.
 
 (* model outputs, for replay files *)
@@ -165,7 +187,10 @@ Inductive mout :=
 | MGate (obs : option (list gobs))
 | MShare (obs : list (option nat))
 | MSys (obs : option (list sobs))
-| MFine (obs : option (list fobs)).
+| MFine (obs : option (list fobs))
+| MQuota (q : quota_res)
+| MTotal (t : option Z)
+| MDefault (c : config).
 
 Definition model_out (c : vcase) : mout :=
   match c with
@@ -177,4 +202,8 @@ Definition model_out (c : vcase) : mout :=
   | CShare calls _ => MShare (snd (factory_run [] calls))
   | CSys cfg total ops _ => MSys (option_map (fun l => snd (sys_run l (sys0 0) ops)) (new_limiter cfg total))
   | CFine cfg total ops _ => MFine (option_map (fun l => snd (frun l (fsys0 0) ops)) (new_limiter cfg total))
+  | CQuotaV1 ex rd _ => MQuota (memory_quota_v1 ex rd)
+  | CQuotaV2 f _ => MQuota (memory_quota_v2 f)
+  | CTotal e _ => MTotal (total_memory e)
+  | CDefault _ => MDefault default_config
   end.
